@@ -433,22 +433,17 @@ open CV CV.Val
 /-- a required dependency on a service that is not enabled -/
 def missingReq (en : List String) (d : AL Bool) : Bool := d.any (fun kv => !en.contains kv.1 && kv.2)
 
-/-- an optional dependency on a service that is not enabled (this is what triggers the `delete`) -/
-def missingOpt (en : List String) (d : AL Bool) : Bool := d.any (fun kv => !en.contains kv.1 && !kv.2)
-
-theorem depLoop_toBool (en dis : List String) (name : String) (d : AL Bool) (h : name ∉ akeys d) (st : LoopSt) :
-    (depLoop en dis name d st).toBool = !missingReq en d := by
-  induction d generalizing st with
+theorem depLoop_toBool (en dis : List String) (d : AL Bool) (es : List String) :
+    (depLoop en dis d es).toBool = !missingReq en d := by
+  induction d generalizing es with
   | nil => simp [depLoop, missingReq, Except.toBool]
   | cons hd tl ih =>
     obtain ⟨dep, req⟩ := hd
-    simp only [akeys, List.map_cons, List.mem_cons, not_or] at h
-    have hne : (dep = name) = False := by simp; exact fun e => h.1 e.symm
-    simp only [depLoop, hne, decide_false, Bool.false_and, Bool.false_eq_true, if_false]
+    simp only [depLoop]
     simp only [missingReq, List.any_cons] at ih ⊢
     by_cases hen : en.contains dep = true
     · simp only [hen, if_true, Bool.not_true, Bool.false_and, Bool.false_or]
-      exact ih h.2 _
+      exact ih _
     · simp only [hen, Bool.false_eq_true, if_false]
       have hen' : en.contains dep = false := by simpa using hen
       cases req with
@@ -457,59 +452,38 @@ theorem depLoop_toBool (en dis : List String) (name : String) (d : AL Bool) (h :
         split <;> rfl
       | false =>
         simp only [Bool.false_eq_true, if_false, Bool.and_false, Bool.false_or]
-        exact ih h.2 _
+        exact ih _
 
-theorem depLoop_ok (en dis : List String) (name : String) (d : AL Bool) (h : name ∉ akeys d) (st st' : LoopSt)
-    (hok : depLoop en dis name d st = .ok st') :
-    st'.edges = st.edges ++ (d.filter (fun kv => en.contains kv.1)).map Prod.fst ∧
-    st'.selfDeleted = (st.selfDeleted || missingOpt en d) := by
-  induction d generalizing st with
-  | nil => simp only [depLoop] at hok; cases hok; simp [missingOpt]
+theorem depLoop_ok (en dis : List String) (d : AL Bool) (es es' : List String)
+    (hok : depLoop en dis d es = .ok es') :
+    es' = es ++ (d.filter (fun kv => en.contains kv.1)).map Prod.fst := by
+  induction d generalizing es with
+  | nil => simp only [depLoop] at hok; cases hok; simp
   | cons hd tl ih =>
     obtain ⟨dep, req⟩ := hd
-    simp only [akeys, List.map_cons, List.mem_cons, not_or] at h
-    have hne : (dep = name) = False := by simp; exact fun e => h.1 e.symm
-    simp only [depLoop, hne, decide_false, Bool.false_and, Bool.false_eq_true, if_false] at hok
-    simp only [missingOpt, List.any_cons] at ih ⊢
+    simp only [depLoop] at hok
     by_cases hen : en.contains dep = true
     · simp only [hen, if_true] at hok
-      have := ih h.2 _ hok
-      simp only [List.filter_cons, hen, if_true, List.map_cons, Bool.not_true, Bool.false_and, Bool.false_or]
-      constructor
-      · rw [this.1]; simp
-      · exact this.2
+      have := ih _ hok
+      simp only [List.filter_cons, hen, if_true, List.map_cons]
+      rw [this]; simp
     · simp only [hen, Bool.false_eq_true, if_false] at hok
       have hen' : en.contains dep = false := by simpa using hen
       cases req with
       | true => simp only [if_true] at hok; split at hok <;> cases hok
       | false =>
         simp only [Bool.false_eq_true, if_false] at hok
-        have := ih h.2 _ hok
-        simp only [List.filter_cons, hen', Bool.false_eq_true, if_false, Bool.not_false, Bool.and_self, Bool.true_or,
-          Bool.or_true]
-        constructor
-        · exact this.1
-        · rw [this.2]; simp
-
-theorem svcAfter_noSelf (s : Svc) (st : LoopSt) (h : s.name ∉ akeys s.deps) : svcAfter s st = s := by
-  simp only [svcAfter]
-  split
-  · have : s.deps.filter (fun kv => decide (kv.1 ≠ s.name)) = s.deps := by
-      apply List.filter_eq_self.mpr
-      intro kv hkv
-      simp only [ne_eq, decide_not, Bool.not_eq_eq_eq_not, Bool.not_true, decide_eq_false_iff_not]
-      intro e
-      exact h (List.mem_map.mpr ⟨kv, hkv, e⟩)
-    cases s; simp_all
-  · rfl
+        have := ih _ hok
+        simp only [List.filter_cons, hen', Bool.false_eq_true, if_false]
+        exact this
 
 theorem graphLoop_toBool (en dis : List String) (svcs : List Svc) :
-    (graphLoop en dis svcs).toBool = svcs.all (fun s => (depLoop en dis s.name s.deps ⟨[], false⟩).toBool) := by
+    (graphLoop en dis svcs).toBool = svcs.all (fun s => (depLoop en dis s.deps []).toBool) := by
   induction svcs with
   | nil => simp [graphLoop, Except.toBool]
   | cons s r ih =>
     simp only [graphLoop, List.all_cons]
-    cases hd : depLoop en dis s.name s.deps ⟨[], false⟩ with
+    cases hd : depLoop en dis s.deps [] with
     | error e => simp [Except.toBool]
     | ok st =>
       simp only [Except.toBool, Bool.true_and] at ih ⊢
@@ -575,7 +549,7 @@ theorem mergeGenericKVs_eq (a b : KVs) : mergeGenericKVs a b = mergeKVsE generic
 
 end CV.Det
 
-/-! ### `newGraph` as a whole (no self dependency) -/
+/-! ### `newGraph` as a whole -/
 namespace CV.Det
 open CV CV.Val
 
@@ -585,44 +559,35 @@ def edgesOf (en : List String) (s : Svc) : List String :=
 
 def adjOf (en : List String) (svcs : List Svc) : AL (List String) := svcs.map (fun s => (s.name, edgesOf en s))
 
-def NoSelf (svcs : List Svc) : Prop := ∀ s ∈ svcs, s.name ∉ akeys s.deps
-
-theorem graphLoop_ok_shape (en dis : List String) (svcs : List Svc) (hs : NoSelf svcs)
-    (ss : List Svc) (adj : AL (List String)) (h : graphLoop en dis svcs = .ok (ss, adj)) :
-    ss = svcs ∧ adj = adjOf en svcs := by
-  induction svcs generalizing ss adj with
-  | nil => simp only [graphLoop] at h; cases h; exact ⟨rfl, rfl⟩
+theorem graphLoop_ok_shape (en dis : List String) (svcs : List Svc)
+    (adj : AL (List String)) (h : graphLoop en dis svcs = .ok adj) : adj = adjOf en svcs := by
+  induction svcs generalizing adj with
+  | nil => simp only [graphLoop] at h; cases h; rfl
   | cons s r ih =>
     simp only [graphLoop] at h
-    have hs' : NoSelf r := fun x hx => hs x (List.mem_cons_of_mem _ hx)
-    have hself : s.name ∉ akeys s.deps := hs s List.mem_cons_self
-    cases hd : depLoop en dis s.name s.deps ⟨[], false⟩ with
+    cases hd : depLoop en dis s.deps [] with
     | error e => simp [hd] at h
-    | ok st =>
+    | ok es =>
       simp only [hd] at h
       cases hg : graphLoop en dis r with
       | error e => simp [hg] at h
-      | ok p =>
-        obtain ⟨ss', adj'⟩ := p
+      | ok adj' =>
         simp only [hg] at h
         cases h
-        obtain ⟨e1, e2⟩ := ih hs' ss' adj' hg
-        obtain ⟨ed, _⟩ := depLoop_ok en dis s.name s.deps hself _ st hd
-        refine ⟨?_, ?_⟩
-        · rw [svcAfter_noSelf s st hself, e1]
-        · simp only [adjOf, List.map_cons, edgesOf]
-          rw [ed, e2]; simp [adjOf, edgesOf]
+        have e2 := ih adj' hg
+        have ed := depLoop_ok en dis s.deps [] es hd
+        simp only [adjOf, List.map_cons, edgesOf]
+        rw [ed, e2]; simp [adjOf, edgesOf]
 
-/-- with no self dependency, `newGraph` succeeds iff no required dependency is missing and the graph is acyclic -/
-theorem newGraph_toBool (svcs : List Svc) (dis : List String) (hs : NoSelf svcs) :
+/-- `newGraph` succeeds iff no required dependency is missing and the graph is acyclic -/
+theorem newGraph_toBool (svcs : List Svc) (dis : List String) :
     (newGraph svcs dis).toBool =
       ((graphLoop (svcs.map (·.name)) dis svcs).toBool && !hasCycle (adjOf (svcs.map (·.name)) svcs)) := by
   simp only [newGraph]
   cases hg : graphLoop (svcs.map (·.name)) dis svcs with
   | error e => simp [Except.toBool]
-  | ok p =>
-    obtain ⟨ss, adj⟩ := p
-    obtain ⟨_, e2⟩ := graphLoop_ok_shape _ dis svcs hs ss adj hg
+  | ok adj =>
+    have e2 := graphLoop_ok_shape _ dis svcs adj hg
     simp only [e2]
     split <;> simp_all [Except.toBool]
 
@@ -644,16 +609,6 @@ theorem DepsPerm.names {a b : List Svc} (h : DepsPerm a b) : a.map (·.name) = b
   | nil => rfl
   | cons hn _ _ ih => simp [hn, ih]
 
-theorem DepsPerm.noSelf {a b : List Svc} (h : DepsPerm a b) (hs : NoSelf b) : NoSelf a := by
-  induction h with
-  | nil => intro s hs'; cases hs'
-  | cons hn hp _ ih =>
-    intro x hx
-    rcases List.mem_cons.mp hx with rfl | hx
-    · rw [hn]; intro hk
-      exact hs _ List.mem_cons_self ((hp.map Prod.fst).subset hk)
-    · exact ih (fun y hy => hs y (List.mem_cons_of_mem _ hy)) x hx
-
 theorem missingReq_congr {en en' : List String} (he : ∀ x, en'.contains x = en.contains x) {d d' : AL Bool}
     (hp : d'.Perm d) : missingReq en' d' = missingReq en d := by
   simp only [missingReq]
@@ -669,18 +624,14 @@ theorem edgesOf_congr {en en' : List String} (he : ∀ x, en'.contains x = en.co
   exact (hp.filter _).map _
 
 theorem depLoops_all_congr {en en' dis : List String} (he : ∀ x, en'.contains x = en.contains x)
-    {a b : List Svc} (h : DepsPerm a b) (hs : NoSelf b) :
-    a.all (fun s => (depLoop en' dis s.name s.deps ⟨[], false⟩).toBool) =
-    b.all (fun s => (depLoop en dis s.name s.deps ⟨[], false⟩).toBool) := by
-  have hsa := h.noSelf hs
+    {a b : List Svc} (h : DepsPerm a b) :
+    a.all (fun s => (depLoop en' dis s.deps []).toBool) =
+    b.all (fun s => (depLoop en dis s.deps []).toBool) := by
   induction h with
   | nil => rfl
   | @cons s' s r' r hn hp hr ih =>
     simp only [List.all_cons]
-    rw [depLoop_toBool en' dis s'.name s'.deps (hsa _ List.mem_cons_self),
-        depLoop_toBool en dis s.name s.deps (hs _ List.mem_cons_self),
-        missingReq_congr he hp,
-        ih (fun y hy => hs y (List.mem_cons_of_mem _ hy)) (fun y hy => hsa y (List.mem_cons_of_mem _ hy))]
+    rw [depLoop_toBool en' dis s'.deps, depLoop_toBool en dis s.deps, missingReq_congr he hp, ih]
 
 /-- children of a vertex -/
 def children (adj : AL (List String)) (x : String) : List String := (find x adj).getD []
@@ -724,23 +675,20 @@ theorem children_adjOf_depsPerm {en en' : List String} (he : ∀ x, en'.contains
     · simpa using edgesOf_congr he hp
     · exact ih
 
-/-- **`graph.CheckCycle` without self dependencies is order independent**: for services with distinct names none of
-which depends on itself, whether `newGraph` (+ cycle search) accepts the project is the same for every iteration
-order of the services map and of every `depends_on` map -/
-theorem newGraph_toBool_perm {svcs svcs' : List Svc} (dis : List String) (hs : NoSelf svcs)
+/-- **`graph.CheckCycle` is order independent**: for services with distinct names, whether `newGraph` (+ cycle
+search) accepts the project is the same for every iteration order of the services map and of every `depends_on` map -/
+theorem newGraph_toBool_perm {svcs svcs' : List Svc} (dis : List String)
     (hn : (svcs.map (·.name)).Nodup) (hp : SvcsPerm svcs' svcs) :
     (newGraph svcs' dis).toBool = (newGraph svcs dis).toBool := by
   obtain ⟨mid, hpm, hdm⟩ := hp
-  have hsm : NoSelf mid := hdm.noSelf hs
-  have hs' : NoSelf svcs' := fun x hx => hsm x (hpm.subset hx)
   have hnames : (svcs'.map (·.name)).Perm (svcs.map (·.name)) := by
     rw [← hdm.names]; exact hpm.map _
   have he : ∀ x, (svcs'.map (·.name)).contains x = (svcs.map (·.name)).contains x :=
     fun x => hnames.contains_eq
-  rw [newGraph_toBool svcs' dis hs', newGraph_toBool svcs dis hs]
+  rw [newGraph_toBool svcs' dis, newGraph_toBool svcs dis]
   congr 1
   · rw [graphLoop_toBool, graphLoop_toBool, hpm.all_eq]
-    exact depLoops_all_congr he hdm hs
+    exact depLoops_all_congr he hdm
   · congr 1
     apply hasCycle_congr
     · rw [akeys_adjOf, akeys_adjOf]; exact hnames
